@@ -680,7 +680,7 @@ fn words(len: usize, nsym: usize, f: &mut dyn FnMut(&[usize])) {
 
 pub fn run(tier: Tier) -> Report {
     let rep = Report::new("C07", tier);
-    rep.set_rule("(a) every word over {predict, update(still|drift|jump|shrink|grow|jitter)} of length <= L (quick 5, thorough 7) and every word of length <= 4 repeated to 300 steps, for box / point / 2-point-vector filters x 3 weight pairs x initial measurements (the vector filter additionally on vectors that mix a late-initiated point with an older one, both orders); rotated tracks also receive angle-less measurements (jitter at even positions); every step compared with the f64 textbook step computed from the implementation's own pre-state. (b) cost(d,true) == 100 - cost(d,false) and the gate value for f32 bit patterns d >= 0 (thorough: all 2^31; quick: stride + neighbourhoods of every chi-square table entry). Distinct = words / patterns enumerated without repetition.");
+    rep.set_rule("(a) every word over {predict, update(still|drift|jump|shrink|grow|jitter)} of length <= L (quick 5, thorough 7) and every word of length <= 4 repeated to 300 steps, for box / point / 2-point-vector filters x 3 weight pairs x initial measurements (the vector filter additionally on vectors that mix a late-initiated point with an older one, both orders, and on long vectors of 17 ... 500 (thorough 5000) distinct points, element by element); rotated tracks also receive angle-less measurements (jitter at even positions); every step compared with the f64 textbook step computed from the implementation's own pre-state. (b) cost(d,true) == 100 - cost(d,false) and the gate value for f32 bit patterns d >= 0 (thorough: all 2^31; quick: stride + neighbourhoods of every chi-square table entry). Distinct = words / patterns enumerated without repetition.");
     rep.assume("f64 reference recurrence with the library's documented noise model; tolerances k*2^-24*block scale");
     let ctx = Ctx { rep: &rep, steps: AtomicU64::new(0), words: AtomicU64::new(0) };
 
@@ -814,6 +814,51 @@ pub fn run(tier: Tier) -> Report {
     rep.extra("periodic_family_words", json!(nwords - exhaustive_words));
     rep.extra("filter_steps_checked", json!(steps));
     rep.sample(json!({"part":"steps","filter":"box","weights":[0.05,0.00625],"init":[1.0,2.5,null,0.5,10.0],"word":["P","Udrift","P","Ujump","Ushrink"]}));
+
+    // (a') long point vectors (17 ... 1000 points): element i of every result belongs to point i
+    {
+        use similari_point::pt;
+        let mut checked = 0u64;
+        for &(pw, vw) in &weights {
+            let f = Point2DKalmanFilter::new(pw, vw);
+            let vf = Vec2DKalmanFilter::new(pw, vw);
+            for n in tier.pick(vec![17usize, 127, 128, 129, 500], vec![17, 64, 127, 128, 129, 256, 500, 1000, 5000]) {
+                for rep_k in 0..tier.pick(3usize, 6usize) {
+                    let pts: Vec<nalgebra::Point2<f32>> = (0..n).map(|i| pt(i as f32 * 1.5 + rep_k as f32, 1000.0 - i as f32 * 0.75)).collect();
+                    let meas: Vec<nalgebra::Point2<f32>> = (0..n).map(|i| pt(i as f32 * 1.5 + 0.5 + (i % 7) as f32 * 0.1, 1000.0 - i as f32 * 0.75 - 0.25)).collect();
+                    let s0 = vf.initiate(&pts);
+                    let s1 = vf.predict(&s0);
+                    let d1 = vf.distance(&s1, &meas);
+                    let s2 = vf.update(&s1, &meas);
+                    let same_state = |x: &KalmanState<4>, y: &KalmanState<4>| {
+                        let (a, b) = (x.verif_raw(), y.verif_raw());
+                        a.0.iter().zip(&b.0).all(|(p, q)| p.to_bits() == q.to_bits()) && a.1.iter().zip(&b.1).all(|(p, q)| p.to_bits() == q.to_bits())
+                    };
+                    checked += n as u64;
+                    let mut bad: Option<String> = None;
+                    if s0.len() != n || s1.len() != n || s2.len() != n || d1.len() != n {
+                        bad = Some(format!("lengths {} {} {} {} for {n} points", s0.len(), s1.len(), s2.len(), d1.len()));
+                    } else {
+                        for i in 0..n {
+                            let p0 = f.initiate(&pts[i]);
+                            let p1 = f.predict(&p0);
+                            let pd = f.distance(&p1, &meas[i]);
+                            let p2 = f.update(&p1, &meas[i]);
+                            if !same_state(&s0[i], &p0) || !same_state(&s1[i], &p1) || !same_state(&s2[i], &p2) || d1[i].to_bits() != pd.to_bits() {
+                                bad = Some(format!("element {i} of {n}: the vector filter's initiate / predict / distance / update result differs from the point filter on point {i} (distance {} vs {pd})", d1[i]));
+                                break;
+                            }
+                        }
+                    }
+                    if let Some(w) = bad {
+                        rep.violation(Violation { key: "vec/long-vector-differs-from-point".into(), what: w, replay: json!({"filter":"vec","weights":[pw,vw],"points":n}) });
+                    }
+                }
+            }
+        }
+        ctx.steps.fetch_add(checked, Ordering::Relaxed);
+        rep.extra("long_vector_points_checked", json!(checked));
+    }
 
     // (b) costs
     let cnt = AtomicU64::new(0);
